@@ -518,9 +518,14 @@ func (hm *HostMap) unlockedDeleteHostInfo(hostinfo *HostInfo) bool {
 		}
 	}
 
-	delete(hm.Indexes, hostinfo.localIndexId)
-	if len(hm.Indexes) == 0 {
-		hm.Indexes = map[uint32]*HostInfo{}
+	// A hostinfo can be deleted more than once (stale pointers from the per batch hostmap cache or
+	// recv_error handling) and its local index may have been handed to a new tunnel in between, so
+	// only remove the index entry if it still points to the hostinfo we are deleting
+	if hm.Indexes[hostinfo.localIndexId] == hostinfo {
+		delete(hm.Indexes, hostinfo.localIndexId)
+		if len(hm.Indexes) == 0 {
+			hm.Indexes = map[uint32]*HostInfo{}
+		}
 	}
 
 	if hm.l.Enabled(context.Background(), slog.LevelDebug) {
@@ -537,7 +542,10 @@ func (hm *HostMap) unlockedDeleteHostInfo(hostinfo *HostInfo) bool {
 	}
 	// Clean up any local relay indexes for which I am acting as a relay hop
 	for _, localRelayIdx := range hostinfo.relayState.CopyRelayForIdxs() {
-		delete(hm.Relays, localRelayIdx)
+		// Same as above, a relay index released by an earlier delete may already belong to another hostinfo
+		if hm.Relays[localRelayIdx] == hostinfo {
+			delete(hm.Relays, localRelayIdx)
+		}
 	}
 
 	return final
